@@ -162,18 +162,20 @@ def invRounds (w : List (List Nat)) (s : List Nat) : Nat → List Nat
   | 0 => s
   | n + 1 => invRounds w (invRound w s (n + 1)) n
 
-def cipher (key inp : List Nat) : List Nat :=
-  let Nr := key.length / 4 + 6
-  let w := keyExpansion key
+/-- Cipher with the key schedule `w` and `Nr` rounds (Fig. 5) -/
+def cipherW (w : List (List Nat)) (Nr : Nat) (inp : List Nat) : List Nat :=
   let s := addRoundKey inp w 0
   let s := rounds w s (Nr - 1)
   addRoundKey (shiftRows (subBytes s)) w Nr
 
-def invCipher (key inp : List Nat) : List Nat :=
-  let Nr := key.length / 4 + 6
-  let w := keyExpansion key
+/-- InvCipher with the key schedule `w` and `Nr` rounds (Fig. 12) -/
+def invCipherW (w : List (List Nat)) (Nr : Nat) (inp : List Nat) : List Nat :=
   let s := addRoundKey inp w Nr
   let s := invRounds w s (Nr - 1)
   addRoundKey (invSubBytes (invShiftRows s)) w 0
+
+def cipher (key inp : List Nat) : List Nat := cipherW (keyExpansion key) (key.length / 4 + 6) inp
+
+def invCipher (key inp : List Nat) : List Nat := invCipherW (keyExpansion key) (key.length / 4 + 6) inp
 
 end Spec.Aes
